@@ -293,6 +293,38 @@ def check(ctx):
                            msg="%s must be ignored in %s of %s but has effect %s" % (
                                tname, slot, cls_short(cls.qual), first.brief() if first else ""),
                            trigger="NET(%s,%s)" % (tname, slot))
+        # a refused CONNACK leaves the protocol idle again at once (not only when the transport reports the loss)
+        from .common import contexts
+        for tr in contexts(cat):
+            if not (tr.kind == "NET" and tr.name == "CONNACK" and tr.slot == "CONNECTING" and tr.decode_ok):
+                continue
+            if tr.path.exit_kind() == "raise":
+                continue
+            dec = [e for e in tr.events if e.kind == "DECODE" and e.a["ok"]]
+            resp = dec[0].a["obj"] if dec else None
+            rc0 = None
+            for c in tr.path.conds:
+                t, pol = c.term, c.pol
+                while isinstance(t, tuple) and t and t[0] == "not":
+                    t, pol = t[1], not pol
+                if t == ("cmp", "==", ("net", resp, "resultCode"), ("const", 0)):
+                    rc0 = pol
+                elif t == ("cmp", "!=", ("net", resp, "resultCode"), ("const", 0)):
+                    rc0 = not pol
+                elif t == ("net", resp, "resultCode"):
+                    rc0 = not pol
+            st = [e for e in tr.events if e.kind == "STATE"]
+            last = st[-1].a["slot"] if st else "CONNECTING"
+            if rc0 is False:
+                ctx.ob("M-REFUSED", "%s a refused CONNACK leaves the protocol IDLE" % cls_short(cls.qual), last == "IDLE",
+                       where=where(st[-1]) if st else where(tr.events[-1]), function=(st[-1] if st else tr.events[-1]).func,
+                       construct="%s/CONNACK-refused/state" % cls.qual,
+                       msg="after a CONNACK with a non-zero return code the state is %s: until the loss is reported, operations and packets are "
+                           "still honoured as in that state (publish() accepted, a second CONNACK handled)" % last)
+            elif rc0 is True:
+                ctx.ob("M-REFUSED", "%s an accepted CONNACK leaves the protocol CONNECTED" % cls_short(cls.qual), last == "CONNECTED",
+                       where=where(st[-1]) if st else where(tr.events[-1]), function=(st[-1] if st else tr.events[-1]).func,
+                       construct="%s/CONNACK-accepted/state" % cls.qual, nontrivial=False, msg="after an accepted CONNACK the state is %s" % last)
         # the loss path and the refused-CONNACK path return to IDLE
         loss = cat.get("connectionLost")
         for p in loss.paths:
